@@ -130,6 +130,26 @@ def check_tree(label, name, est, s, X, y, Kmat, qseed, subsets):
     ref = KR.J(pred, Kmat)
     if abs(sc - ref) > 1e-9 * max(1.0, abs(ref), n * float(np.max(np.abs(Kmat)))):
         raise Violation(f"{label} [{name}]: score {sc!r} != kernel-KMeans objective of the predicted labels {ref!r}")
+    # held-out / partial data: score must be the objective of the predicted labels there too (cluster ids may be skipped)
+    for trial in range(3):
+        if len(uniq) >= 2 and trial == 0:
+            drop = uniq[rs.randint(len(uniq) - 1)] if len(uniq) > 1 else -1
+            idx = np.where(labels != drop)[0]
+        else:
+            idx = np.sort(rs.choice(n, size=rs.randint(1, n + 1), replace=False))
+        if len(idx) == 0:
+            continue
+        Xs = np.ascontiguousarray(X[idx])
+        ys = None if y is None else np.ascontiguousarray(np.asarray(y)[idx][:, idx])
+        Ks = np.ascontiguousarray(Kmat[idx][:, idx])
+        try:
+            sc_s = est.score(Xs, ys)
+        except Exception as e:
+            raise Violation(f"{label} [{name}]: score on a subset of the training rows raised {type(e).__name__}: {e}")
+        ref_s = KR.J(labels[idx], Ks)
+        if not np.isfinite(sc_s) or abs(sc_s - ref_s) > 1e-9 * max(1.0, abs(ref_s), n * float(np.max(np.abs(Kmat)))):
+            raise Violation(f"{label} [{name}]: score on rows {idx.tolist()} (labels {labels[idx].tolist()}) is {sc_s!r}, the "
+                            f"objective of the predicted labels is {ref_s!r}")
     binding = sum([len(leaves) == max_leaves, s["max_depth"] is not None and max(t.depths) == s["max_depth"],
                    len(uniq) == s["max_clusters"], any(int(masks[lf].sum()) < 2 * s["min_samples_leaf"] for lf in leaves)])
     return len(leaves), binding
